@@ -1,0 +1,22 @@
+//! Verification hook: a global, normally empty callback invoked at schedule points.
+//! Compiled only with `--cfg similari_verif`.
+
+use std::sync::{Arc, RwLock};
+
+pub type Hook = Arc<dyn Fn(&'static str, &[u64]) + Send + Sync + 'static>;
+
+static HOOK: RwLock<Option<Hook>> = RwLock::new(None);
+
+/// Installs (or removes) the global callback.
+pub fn set(hook: Option<Hook>) {
+    *HOOK.write().unwrap() = hook;
+}
+
+/// Invoked by the library at schedule points; a no-op when no callback is installed.
+#[inline]
+pub fn at(site: &'static str, args: &[u64]) {
+    let h = HOOK.read().unwrap().clone();
+    if let Some(h) = h {
+        h(site, args);
+    }
+}
